@@ -218,9 +218,12 @@ package fstree
 //@   ensures 0 <= res0 && res0 <= len(a1)
 //@ func (*FSTree).readHeader
 //@   property C10 C11
+//@   sweep
 //@   valid !entryMatched(0)
 //@   requires [buffer_of_two_header_lengths] len(buf) >= 40960
 //@   loop 1 invariant 0 <= offset && offset <= n + 38 && 0 <= n && n <= len(buf) && !entryMatched(0)
+//@   loop 1 invariant [entry_data_starts_below_the_fill_mark_unless_right_after_a_refill] offset <= n || offset == 38
+//@   loop 1 invariant [fill_mark_within_a_header_length_and_a_prefix] n <= 20480 + 37
 //@   ensures [stream_of_a_combined_entry_ends_with_the_entry] err == nil && entryMatched(0) ==> isType(res1, limitedFileReader) && wide(len(res0)) + wide(as(res1, limitedFileReader).limit) == wide(l)
 
 // ---- C10 (scan of a combined file): the 38-byte entry prefix (magic, OID, length) is parsed
